@@ -138,3 +138,62 @@ def plantable(strs, alphabet, max_len):
                 out.append(run)
             run = ''
     return out
+
+
+def source_thresholds(files, repo=None):
+    """the ints of the source that act as SIZES / BOUNDS rather than data: operands of comparisons, slice bounds, range() arguments,
+    right operands of % // & >> <<, and NAME = <int expression> assignments (CHUNK = 1 << 20).  Table entries (elements of list /
+    tuple / dict literals) are not included.  Sorted list of distinct values."""
+    out = set()
+
+    def take(node):
+        v = _fold_int(node)
+        if v is not None and abs(v) < 1 << 80:
+            out.add(v)
+
+    for f in files:
+        path = f if os.path.isabs(f) else os.path.join(repo or REPO, f)
+        try:
+            tree = ast.parse(open(path, encoding='utf-8').read())
+        except Exception:
+            continue
+        for node in ast.walk(tree):
+            if isinstance(node, ast.Compare):
+                for x in [node.left] + list(node.comparators):
+                    take(x)
+            elif isinstance(node, ast.Slice):
+                for x in (node.lower, node.upper, node.step):
+                    if x is not None:
+                        take(x)
+            elif isinstance(node, ast.Call) and isinstance(node.func, ast.Name) and node.func.id == 'range':
+                for x in node.args:
+                    take(x)
+            elif isinstance(node, ast.BinOp) and isinstance(node.op, (ast.Mod, ast.FloorDiv, ast.BitAnd, ast.RShift, ast.LShift)):
+                take(node.right)
+            elif isinstance(node, ast.Assign) and isinstance(node.value, (ast.Constant, ast.BinOp, ast.UnaryOp)):
+                take(node.value)
+            elif isinstance(node, ast.AnnAssign) and node.value is not None and isinstance(node.value, (ast.Constant, ast.BinOp, ast.UnaryOp)):
+                take(node.value)
+    return sorted(out)
+
+
+def size_candidates(ints, blocks=(16,), cap=None, min_size=2):
+    """payload lengths around every size in `ints` (and around the powers of two next to each): L-1, L, L+1, 2L, 3L, L +- b and the next
+    four multiples of b at or above L for every block size b - the lengths at which a chunked / block-wise path changes behaviour
+    (last chunk full, empty tail, exactly one block over).  Sorted, distinct, within [0, cap]."""
+    base = set()
+    for v in ints:
+        if v < min_size:
+            continue
+        base.add(v)
+        p = 1 << (v.bit_length() - 1)
+        base |= {p, 2 * p}
+    out = set()
+    for L in base:
+        out |= {L - 1, L, L + 1, 2 * L - 1, 2 * L, 2 * L + 1, 3 * L}
+        for b in blocks:
+            if b < 1:
+                continue
+            up = -(-L // b) * b
+            out |= {L - b, L + b, 2 * L + b, up, up + b, up + 2 * b, up + 3 * b, up - b}
+    return sorted(x for x in out if x >= 0 and (cap is None or x <= cap))
